@@ -73,5 +73,145 @@ func checkC15(c *Ctx) {
 	st := bidx(c, "B-IDX", scope, map[string]string{})
 	c.Notes = append(c.Notes, fmt.Sprintf("B-IDX: %d sites, %d compiler, %d LinBounds, %d unproven", st.sites, st.compiler, st.lin, st.unproved))
 	c18Panics(c, scope)
+	c15MsgType(c, scope)
 	_ = token.NoPos
 }
+
+// phiClosure: values that may carry v (through phis and interface conversions)
+func phiClosure(v ssa.Value) map[ssa.Value]bool {
+	out := map[ssa.Value]bool{}
+	var walk func(x ssa.Value)
+	walk = func(x ssa.Value) {
+		if out[x] || x.Referrers() == nil {
+			return
+		}
+		out[x] = true
+		for _, u := range *x.Referrers() {
+			switch y := u.(type) {
+			case *ssa.Phi:
+				walk(y)
+			case *ssa.ChangeInterface:
+				walk(y)
+			}
+		}
+	}
+	walk(v)
+	return out
+}
+
+// c15MsgType: after readHandshake, no successful return is reachable unless the message passed a comma-ok
+// type assertion to an expected type (G-C15-msgtype), and a failed read is an error (G-C15-readerr).
+func c15MsgType(c *Ctx, scope []*ssa.Function) {
+	n := 0
+	for _, f := range scope {
+		spec, has := defaultResultSpec(f)
+		ord := 0
+		for _, ci := range allCalls(f) {
+			call, ok := ci.(*ssa.Call)
+			if !ok || !calleeNamed(call, "readHandshake") {
+				continue
+			}
+			ord++
+			n++
+			c.Evals++
+			if !has || spec.kind != "error" {
+				c.Undecided("G-C15-msgtype", fname(f), fmt.Sprintf("readHandshake #%d", ord), "function has no error result", call.Pos())
+				continue
+			}
+			// (a) the read error is returned
+			g := evalReject(c.P, f, errCheckAtomsPhi(f, func(cl *ssa.Call) bool { return cl == call }, "readHandshake error"), spec)
+			c.Check(g.OK, "G-C15-readerr", fname(f), fmt.Sprintf("readHandshake #%d error is returned", ord), g.Why, "a failed or truncated read must abort the handshake: "+g.Why, call.Pos())
+			// (b) the message type is checked
+			var msg ssa.Value
+			for _, u := range *call.Referrers() {
+				if ex, ok := u.(*ssa.Extract); ok && ex.Index == 0 {
+					msg = ex
+				}
+			}
+			if msg == nil {
+				c.Violated("G-C15-msgtype", fname(f), fmt.Sprintf("readHandshake #%d message type is checked", ord), "the message is discarded without looking at its type", call.Pos())
+				continue
+			}
+			cl := phiClosure(msg)
+			cut := map[edge]bool{}
+			nAssert := 0
+			bad := ""
+			for v := range cl {
+				for _, u := range *v.Referrers() {
+					ta, ok := u.(*ssa.TypeAssert)
+					if !ok || ta.X != v {
+						continue
+					}
+					nAssert++
+					if !ta.CommaOk {
+						bad = "a single-value type assertion at " + c.P.pos(ta.Pos()) + " panics for an unexpected message"
+						continue
+					}
+					// the ok flag and the Ifs testing it
+					for _, u2 := range *ta.Referrers() {
+						ex, ok := u2.(*ssa.Extract)
+						if !ok || ex.Index != 1 {
+							continue
+						}
+						for okv := range phiClosure(ex) {
+							for _, u3 := range *okv.Referrers() {
+								switch y := u3.(type) {
+								case *ssa.If:
+									{
+										b := y.Block()
+										// which successor is "matched"?
+										cur := y.Cond
+										neg := false
+										for {
+											if un, ok := cur.(*ssa.UnOp); ok && un.Op == token.NOT {
+												neg = !neg
+												cur = un.X
+												continue
+											}
+											break
+										}
+										if cur == okv {
+											if neg {
+												cut[edge{b, b.Succs[1]}] = true
+											} else {
+												cut[edge{b, b.Succs[0]}] = true
+											}
+										}
+									}
+								}
+							}
+						}
+					}
+				}
+			}
+			construct := fmt.Sprintf("readHandshake #%d message type is checked", ord)
+			if bad != "" {
+				c.Violated("G-C15-msgtype", fname(f), construct, bad, call.Pos())
+				continue
+			}
+			if nAssert == 0 {
+				// the message is handed on (returned or passed to a callee that asserts it)
+				c.Holds("G-C15-msgtype", fname(f), construct, "the message is not interpreted here (handed to the caller)", call.Pos())
+				continue
+			}
+			ex := successExits(f, spec)
+			bypass := false
+			where := ""
+			for _, s := range call.Block().Succs {
+				e := edge{call.Block(), s}
+				if cut[e] {
+					continue
+				}
+				if r, w := canReachSuccess(s, &e, ex, cut); r {
+					bypass = true
+					where = "a successful return at " + c.P.pos(lastPos(w)) + " is reachable without any assertion succeeding"
+				}
+			}
+			c.Check(!bypass, "G-C15-msgtype", fname(f), construct, fmt.Sprintf("%d comma-ok assertions; no successful return without a match", nAssert), "a message of an unexpected type does not abort the handshake: "+where, call.Pos())
+		}
+	}
+	if n < 25 {
+		c.Undecided("G-C15-msgtype", "handshake closure", "readHandshake call sites", fmt.Sprintf("only %d found (expected at least 25)", n), token.NoPos)
+	}
+}
+
